@@ -132,6 +132,27 @@ func c05Cases(thorough bool) []rspCase {
 				}
 			}
 		}
+		// a terminal message that is queued but not yet reported sent while further cancels / unpauses arrive
+		if hook == "pause" || hook == "accept" {
+			for _, hs := range []int{0, 1, 2} {
+				for _, seq := range [][]string{{"r-cancel", "p-cancel"}, {"r-cancel", "r-unpause"}, {"r-cancel", "r-cancel"}, {"p-cancel", "r-cancel"}, {"r-pause", "r-cancel", "p-cancel"}, {"r-cancel", "p-update"}} {
+					for a := 0; a <= 3; a++ {
+						for b := a; b <= a+1; b++ {
+							acts := []rspAct{}
+							for i, k := range seq {
+								pos := a
+								if i == len(seq)-1 {
+									pos = b
+								}
+								acts = append(acts, rspAct{k, pos})
+							}
+							acts = append(acts, rspAct{"release", b + 1})
+							out = append(out, rspCase{Hook: hook, HoldSend: []int{hs}, Acts: acts, Retries: 1})
+						}
+					}
+				}
+			}
+		}
 		// connect failure (the queue shuts itself down)
 		out = append(out, rspCase{Hook: hook, FailConn: []int{0}}, rspCase{Hook: hook, FailConn: []int{0}, Acts: []rspAct{{"p-cancel", 1}}})
 	}
